@@ -1,7 +1,555 @@
-/- C10: model not built yet (stub so that the per-property driver links). -/
+/-
+C10 / C11 — source life cycle and control-request rendezvous as a labelled transition system.
+
+Threads (Go goroutines) and their program points, at the granularity of the `verifPoint` sites in
+`Start`, `CoreLoop`, `AnySource.Stop` (data_source.go), the producers (simulated_data_sources.go)
+and `runLaterIfActive` (rpc_server.go):
+
+* Start callers: any number before `SetStateStarting` (`sEnter`), at most one past it (`sp`);
+* Stop callers ×k: counters over the program points  enter → (lock section) → wait → cleanup;
+* the core loop (`lp`), the producer (`pp`: union of the triangle / simpulse / erroring / scripted /
+  UDP producer automata), RPC callers ×m (counters `rEnter`, `rSend`, `rWait`).
+
+Shared state: `sourceState`, `abortSelf` closed?, `nextBlock` closed?, the `runDone` wait-group
+counter, writing-active, resources opened by `Sample` (UDP sockets / reader goroutines), the RPC
+layer's `isSourceActive` flag.  Every access of `sourceState`, `runDone.Add/Done` and the close of
+`abortSelf` happens inside `sourceStateLock`; the log points sit inside those critical sections, so
+a critical section is ONE atomic step here (the mutex itself is therefore never observed held).
+
+`step` is a partial function: `none` = the event is not enabled in that state.  A Go panic is the
+value `crashed := true` (no step is enabled afterwards).
+-/
 import DastardV.Proto
 namespace DastardV.C10
 
-def runLine (_ts : List String) : Verdict := .bad "C10: model not built yet"
+inductive SrcState where
+  | inactive | starting | active | stopping
+deriving DecidableEq, Repr
+
+/-- program point of the one Start call that got past `SetStateStarting` -/
+inductive SPc where
+  | idle          -- no accepted Start call in flight
+  | starting      -- state set to Starting; before/in `Sample`
+  | sampled       -- `Sample` ok; before/in `PrepareChannels`
+  | chans         -- `PrepareChannels` ok; before/in `PrepareRun`
+  | prepared      -- `PrepareRun` ok (fresh abort / nextBlock channels); before `RunDoneActivate`
+  | activated     -- `RunDoneActivate` done; before/in `StartRun`
+  | failing       -- Sample / PrepareChannels / PrepareRun failed; before `SetStateInactive`
+  | runFailing    -- `StartRun` failed; before `RunDoneDeactivate`
+deriving DecidableEq, Repr
+
+/-- program point of the core loop -/
+inductive LPc where
+  | off                 -- no core loop goroutine
+  | spawned             -- `go CoreLoop` done, loop not yet at its first select
+  | select              -- in the select (between blocks)
+  | block               -- `ProcessSegments` running
+  | req (n : Nat)       -- running a request closure that will still send `n` replies
+  | exiting             -- saw closed channel / error block; before the deferred `RunDoneDeactivate`
+deriving DecidableEq, Repr
+
+/-- program point of the producer goroutine -/
+inductive PPc where
+  | off | run | tick | send | sendErr | done
+deriving DecidableEq, Repr
+
+/-- effect of a request closure on the writing flag -/
+inductive WEff where
+  | keep | on | off
+deriving DecidableEq, Repr
+
+structure St where
+  st : SrcState
+  sEnter : Nat            -- Start calls before `SetStateStarting`
+  sp : SPc
+  kEnter : Nat            -- Stop calls before the lock section
+  kWait : Nat             -- Stop calls that switched to Stopping, before/in `RunDoneWait`
+  kClean : Nat            -- Stop calls after the wait, before returning
+  lp : LPc
+  pp : PPc
+  abortClosed : Bool
+  nbClosed : Bool
+  wg : Nat                -- `runDone` counter
+  writing : Bool
+  res : Bool              -- resources opened by `Sample` are held
+  opens : Bool            -- constant: this source's `Sample` opens resources (Abaco UDP)
+  crashed : Bool
+  fuel : Nat              -- how many more blocks the producer may start after abort is closed
+  flag : Bool             -- `SourceControl.isSourceActive`
+  rEnter : Nat            -- RPC callers before the flag test
+  rSend : Nat             -- RPC callers blocked sending on `queuedRequests`
+  rWait : Nat             -- RPC callers blocked receiving from `queuedResults`
+  runOver : Bool          -- the most recent run is done (`RunDoneChan()` is closed); false before the first run
+  -- ghost state (history, read by no guard)
+  stopsDone : Nat         -- Stop calls returned since the last Start call was issued
+deriving DecidableEq, Repr
+
+def init (opens : Bool) : St :=
+  { st := .inactive, sEnter := 0, sp := .idle, kEnter := 0, kWait := 0, kClean := 0, lp := .off, pp := .off,
+    abortClosed := false, nbClosed := false, wg := 0, writing := false, res := false, opens,
+    crashed := false, fuel := 0, flag := false, rEnter := 0, rSend := 0, rWait := 0,
+    runOver := false, stopsDone := 0 }
+
+inductive Ev where
+  -- Start
+  | callStart | startOk | startRejected | sampled | sampleFailed | chans | chansFailed
+  | prepared (fuel : Nat) | prepareFailed | setInactive | activate | runStarted | startRunFailed
+  | starterDeactivate
+  -- core loop
+  | loopStart | gotBlock | processed | processFailed | gotRequest (nrep : Nat) (w : WEff) | reply
+  | requestDone | gotClosed | gotError | loopDeactivate
+  -- Stop
+  | callStop | stopNotActive | stopOnStarting | stopAlready | stopSwitched | stopWaited | stopCleaned
+  -- producer
+  | tick | send | sendError | abortSeen
+  -- RPC layer
+  | callRpc | rpcNotActive | rpcPass | rpcSourceGone | flagOn | flagOff | flagRefresh
+deriving DecidableEq, Repr
+
+/-- environment events: new calls and the RPC layer's flag updates -/
+def Ev.isEnv : Ev → Bool
+  | .callStart | .callStop | .callRpc | .flagOn | .flagOff | .flagRefresh => true
+  | _ => false
+
+def applyW (w : WEff) (b : Bool) : Bool :=
+  match w with
+  | .keep => b
+  | .on => true
+  | .off => false
+
+/-- `RunDoneDeactivate` (state := Inactive; `runDone.Done()`): a negative counter is a Go panic -/
+def deactivate (s : St) : St :=
+  if s.wg = 0 then { s with crashed := true } else { s with st := .inactive, wg := s.wg - 1, runOver := true }
+
+def step (s : St) (e : Ev) : Option St :=
+  if s.crashed then none else
+  match e with
+  -- ---------------------------------------------------------------- Start (data_source.go Start)
+  | .callStart => some { s with sEnter := s.sEnter + 1, stopsDone := 0 }
+  | .startOk =>
+    if s.sEnter > 0 ∧ s.st = .inactive then
+      some { s with sEnter := s.sEnter - 1, sp := .starting, st := .starting } else none
+  | .startRejected =>
+    if s.sEnter > 0 ∧ s.st ≠ .inactive then some { s with sEnter := s.sEnter - 1 } else none
+  | .sampled =>
+    if s.sp = .starting then some { s with sp := .sampled, res := s.res || s.opens } else none
+  | .sampleFailed =>
+    -- a failing `Sample` releases what it opened (abaco.go: deferred closeDevices)
+    if s.sp = .starting then some { s with sp := .failing, res := false } else none
+  | .chans => if s.sp = .sampled then some { s with sp := .chans } else none
+  -- `PrepareChannels` / `PrepareRun` of the sources that open resources in `Sample` cannot fail once
+  -- `Sample` succeeded (PrepareRun only rejects nchan ≤ 0, which their `Sample` now rejects itself)
+  | .chansFailed => if s.sp = .sampled ∧ s.opens = false then some { s with sp := .failing } else none
+  | .prepared f =>
+    if s.sp = .chans then
+      some { s with sp := .prepared, abortClosed := false, nbClosed := false, fuel := f } else none
+  | .prepareFailed => if s.sp = .chans ∧ s.opens = false then some { s with sp := .failing } else none
+  | .setInactive =>
+    if s.sp = .failing then some { s with sp := .idle, st := .inactive } else none
+  | .activate =>
+    -- `RunDoneActivate`, then `StartRun` begins: the producer goroutine may act from here on
+    if s.sp = .prepared then
+      some { s with sp := .activated, st := .active, wg := s.wg + 1, pp := .run, runOver := false } else none
+  | .runStarted =>
+    if s.sp = .activated then some { s with sp := .idle, lp := .spawned } else none
+  | .startRunFailed => if s.sp = .activated ∧ s.opens = false then some { s with sp := .runFailing, pp := .off } else none
+  | .starterDeactivate =>
+    if s.sp = .runFailing then some { deactivate s with sp := .idle } else none
+  -- ---------------------------------------------------------------- CoreLoop
+  | .loopStart => if s.lp = .spawned then some { s with lp := .select } else none
+  | .gotBlock =>
+    if s.lp = .select ∧ s.pp = .send then some { s with lp := .block, pp := .run } else none
+  | .processed => if s.lp = .block then some { s with lp := .select } else none
+  | .processFailed => if s.lp = .block then some { s with crashed := true } else none
+  | .gotRequest n w =>
+    if s.lp = .select ∧ s.rSend > 0 then
+      some { s with lp := .req n, rSend := s.rSend - 1, rWait := s.rWait + 1,
+                    writing := applyW w s.writing } else none
+  | .reply =>
+    match s.lp with
+    | .req (n + 1) => if s.rWait > 0 then some { s with lp := .req n, rWait := s.rWait - 1 } else none
+    | _ => none
+  | .requestDone => if s.lp = .req 0 then some { s with lp := .select } else none
+  | .gotClosed => if s.lp = .select ∧ s.nbClosed then some { s with lp := .exiting } else none
+  | .gotError =>
+    if s.lp = .select ∧ s.pp = .sendErr then some { s with lp := .exiting, pp := .done, res := false } else none
+  | .loopDeactivate =>
+    -- the loop's deferred functions: stop writing if active, then `RunDoneDeactivate`
+    if s.lp = .exiting then some { deactivate s with lp := .off, writing := false } else none
+  -- ---------------------------------------------------------------- AnySource.Stop
+  | .callStop => some { s with kEnter := s.kEnter + 1 }
+  | .stopNotActive =>
+    if s.kEnter > 0 ∧ s.st = .inactive then
+      some { s with kEnter := s.kEnter - 1, stopsDone := s.stopsDone + 1 } else none
+  | .stopOnStarting =>
+    if s.kEnter > 0 ∧ s.st = .starting then some { s with crashed := true } else none
+  | .stopAlready =>
+    if s.kEnter > 0 ∧ s.st = .stopping then
+      some { s with kEnter := s.kEnter - 1, stopsDone := s.stopsDone + 1 } else none
+  | .stopSwitched =>
+    if s.kEnter > 0 ∧ s.st = .active then
+      some { s with kEnter := s.kEnter - 1, kWait := s.kWait + 1, st := .stopping, abortClosed := true }
+    else none
+  | .stopWaited =>
+    if s.kWait > 0 ∧ s.wg = 0 then some { s with kWait := s.kWait - 1, kClean := s.kClean + 1 } else none
+  | .stopCleaned =>
+    if s.kClean > 0 then
+      some { s with kClean := s.kClean - 1, writing := false, stopsDone := s.stopsDone + 1 } else none
+  -- ---------------------------------------------------------------- producer
+  | .tick =>
+    if s.pp = .run ∧ (s.abortClosed = true → s.fuel > 0) then
+      some { s with pp := .tick, fuel := if s.abortClosed then s.fuel - 1 else s.fuel } else none
+  | .send => if s.pp = .tick then some { s with pp := .send } else none
+  | .sendError => if s.pp = .run then some { s with pp := .sendErr } else none
+  | .abortSeen =>
+    if s.pp = .run ∧ s.abortClosed then
+      (if s.nbClosed then some { s with crashed := true }     -- close of a closed channel
+       else some { s with pp := .done, nbClosed := true, res := false })
+    else none
+  -- ---------------------------------------------------------------- runLaterIfActive
+  | .callRpc => some { s with rEnter := s.rEnter + 1 }
+  | .rpcNotActive => if s.rEnter > 0 ∧ s.flag = false then some { s with rEnter := s.rEnter - 1 } else none
+  | .rpcPass =>
+    if s.rEnter > 0 ∧ s.flag = true then some { s with rEnter := s.rEnter - 1, rSend := s.rSend + 1 } else none
+  | .rpcSourceGone =>
+    -- the hand-off selects on the run-done channel as well
+    if s.rSend > 0 ∧ s.runOver then some { s with rSend := s.rSend - 1 } else none
+  -- `SourceControl.Start` sets the flag after `Start` returned nil: some run has been started
+  | .flagOn => if s.lp ≠ .off ∨ s.runOver then some { s with flag := true } else none
+  | .flagOff => some { s with flag := false }
+  | .flagRefresh => some { s with flag := s.flag && (s.st = .active) }
+
+def run (s : St) : List Ev → Option St
+  | [] => some s
+  | e :: es => match step s e with
+    | some s' => run s' es
+    | none => none
+
+/-- Environment discipline E: a Start call is issued only when no Stop call is in flight and a Stop
+call only when no Start call is in flight (Stops may overlap each other, self-termination and requests);
+block processing does not hit an I/O failure. -/
+def envOK (s : St) : Ev → Bool
+  | .callStart => s.kEnter + s.kWait + s.kClean = 0
+  | .callStop => s.sEnter = 0 && s.sp = .idle
+  | .processFailed => false      -- no I/O failure inside block processing (C11 treats it)
+  | _ => true
+
+/-- every request closure handed to the loop sends exactly one reply (discharged by `chkTable`) -/
+def Ev.wf : Ev → Bool
+  | .gotRequest n _ => n = 1
+  | _ => true
+
+def runE (s : St) : List Ev → Option St
+  | [] => some s
+  | e :: es => if envOK s e && e.wf then
+      match step s e with
+      | some s' => runE s' es
+      | none => none
+    else none
+
+def runW (s : St) : List Ev → Option St
+  | [] => some s
+  | e :: es => if e.wf then
+      match step s e with
+      | some s' => runW s' es
+      | none => none
+    else none
+
+def stoppers (s : St) : Nat := s.kEnter + s.kWait + s.kClean
+def callers (s : St) : Nat := s.rEnter + s.rSend + s.rWait
+def starters (s : St) : Nat := s.sEnter + (if s.sp = .idle then 0 else 1)
+
+/-! ### Trace tokens → events (driver side) -/
+
+/-- sites that are pure gates / duplicates and carry no model transition -/
+def droppedSites : List String :=
+  ["start.beforeSample", "start.activated", "loop.select", "stop.beforeWait", "rpc.sent"]
+
+/-- first letter of a role token (`S1` → `S`) -/
+def roleLetter (r : String) : String := (r.take 1).toString
+
+/-- role letter (first char of the role token) and site → event; `none` = unknown token -/
+def evOf (role : String) (site : String) (fuel : Nat) (nrep : Nat) (w : WEff) : Option Ev :=
+  let r := roleLetter role
+  match site with
+  | "start.enter" => some .callStart
+  | "state.starting" => some .startOk
+  | "state.startRejected" => some .startRejected
+  | "start.sampled" => some .sampled
+  | "start.sampleFailed" => some .sampleFailed
+  | "start.channelsPrepared" => some .chans
+  | "start.channelsFailed" => some .chansFailed
+  | "start.runPrepared" => some (.prepared fuel)
+  | "start.prepareFailed" => some .prepareFailed
+  | "state.inactive" => some .setInactive
+  | "run.activate" => some .activate
+  | "start.runStarted" => some .runStarted
+  | "start.startRunFailed" => some .startRunFailed
+  | "run.deactivate" => if r == "S" then some .starterDeactivate else if r == "L" then some .loopDeactivate else none
+  | "loop.start" => some .loopStart
+  | "loop.gotBlock" => some .gotBlock
+  | "loop.processed" => some .processed
+  | "loop.processFailed" => some .processFailed
+  | "loop.gotRequest" => some (.gotRequest nrep w)
+  | "loop.requestDone" => some .requestDone
+  | "loop.gotClosed" => some .gotClosed
+  | "loop.gotError" => some .gotError
+  | "stop.enter" => some .callStop
+  | "stop.notActive" => some .stopNotActive
+  | "stop.onStarting" => some .stopOnStarting
+  | "stop.alreadyStopping" => some .stopAlready
+  | "stop.switched" => some .stopSwitched
+  | "stop.waited" => some .stopWaited
+  | "stop.cleaned" => some .stopCleaned
+  | "prod.tick" => some .tick
+  | "prod.send" => some .send
+  | "prod.sendError" => some .sendError
+  | "prod.abortSeen" => some .abortSeen
+  | "rpc.enter" => some .callRpc
+  | "rpc.notActive" => some .rpcNotActive
+  | "rpc.beforeSend" => some .rpcPass
+  | "rpc.sourceGone" => some .rpcSourceGone
+  | "flag.on" => some .flagOn
+  | "flag.off" => some .flagOff
+  | "flag.refresh" => some .flagRefresh
+  | _ => none
+
+/-- one trace token `role:site` -/
+structure Tok where
+  role : String
+  site : String
+deriving Repr, DecidableEq
+
+def parseTok (t : String) : Option Tok :=
+  match t.splitOn ":" with
+  | [r, s] => some { role := r, site := s }
+  | _ => none
+
+/-- the writing effect of the closure that starts at a `loop.gotRequest` token: the first
+`note.writingOn` / `note.writingOff` of the loop before the matching `loop.requestDone` -/
+def closureW : List Tok → WEff
+  | [] => .keep
+  | t :: ts =>
+    if t.site == "loop.requestDone" then .keep
+    else if t.site == "note.writingOn" then .on
+    else if t.site == "note.writingOff" then .off
+    else closureW ts
+
+def isEffSite (s : String) : Bool := s.startsWith "eff."
+def isNoteSite (s : String) : Bool := s.startsWith "note."
+
+/-- where an `eff.*` call (a method that reads or changes processing state) may legally happen:
+in the core-loop goroutine while it runs a request closure (or `ProcessSegments` while it processes
+a block), or in a Stop caller after its wait, when no core loop exists. -/
+def effAllowed (s : St) (t : Tok) : Bool :=
+  let r := roleLetter t.role
+  if r == "L" then
+    if t.site == "eff.ProcessSegments" then s.lp == .block
+    else match s.lp with
+      | .req _ => true
+      | .exiting => t.site == "eff.WriteControl"      -- the loop's deferred stop of writing
+      | _ => false
+  else if r == "K" then s.kClean > 0 && s.lp == .off
+  else false
+
+/-- first core-loop token of a trace suffix is `loop.gotBlock`: remove it -/
+def pullGotBlock : List Tok → Option (List Tok)
+  | [] => none
+  | t :: ts =>
+    if roleLetter t.role == "L" then (if t.site == "loop.gotBlock" then some ts else none)
+    else (pullGotBlock ts).map (t :: ·)
+
+/-- The hand-off of a block is a rendezvous that only the receiver logs (`loop.gotBlock`, after the
+receive); the sender's next arrivals (`prod.tick`, …) can be logged before it.  Such a producer token
+between `prod.send` and the loop's `loop.gotBlock` happened after the rendezvous, so the
+`loop.gotBlock` entry is moved in front of it (the two log entries are causally unordered). -/
+def normalize : Nat → Bool → List Tok → List Tok
+  | 0, _, ts => ts
+  | _, _, [] => []
+  | k + 1, pending, t :: ts =>
+    let isP := roleLetter t.role == "P"
+    if t.site == "prod.send" then t :: normalize k true ts
+    else if t.site == "loop.gotBlock" then t :: normalize k false ts
+    else if isP && pending then
+      match pullGotBlock ts with
+      | some ts' => { role := "L", site := "loop.gotBlock" } :: t :: normalize k false ts'
+      | none => t :: normalize k pending ts
+    else t :: normalize k pending ts
+
+inductive TraceRes where
+  | ok (s : St) (n : Nat) (bad : Bool)          -- accepted; final state; number of model events; a Stop waited on a run nobody stopped
+  | rejected (i : Nat) (tok : String) (s : St)  -- the model has no such step in the state reached
+  | unknown (i : Nat) (tok : String)
+  | effOutside (i : Nat) (tok : String)         -- an effect outside the places where it is serialised
+  | obsMismatch (i : Nat) (tok : String) (s : St)
+
+def stCode : SrcState → Nat
+  | .inactive => 0 | .starting => 1 | .active => 2 | .stopping => 3
+
+/-- a Stop caller is waiting although the run it would wait for is active and nobody closed its abort channel -/
+def badWait (s : St) : Bool := s.kWait > 0 && s.st == .active
+
+/-- run the model along an implementation trace.  Every `gotRequest` is taken with one reply, and the
+reply itself (no log point of its own) is inserted before the `loop.requestDone` that follows. -/
+def runTrace (fuel : Nat) : St → List Tok → Nat → Nat → Bool → TraceRes
+  | s, [], _, n, bad => .ok s n bad
+  | s, t :: ts, i, n, bad =>
+    let name := t.role ++ ":" ++ t.site
+    if t.site.startsWith "obs.st" then
+      -- the harness read GetState() at a quiescent moment
+      if (t.site.drop 6).toString == toString (stCode s.st) then runTrace fuel s ts (i + 1) n bad
+      else .obsMismatch i name s
+    else if droppedSites.contains t.site || isNoteSite t.site then runTrace fuel s ts (i + 1) n bad
+    else if isEffSite t.site then
+      if effAllowed s t then runTrace fuel s ts (i + 1) n bad else .effOutside i name
+    else
+      match evOf t.role t.site fuel 1 (closureW ts) with
+      | none => .unknown i name
+      | some e =>
+        -- the closure's reply has no site of its own: it precedes `loop.requestDone`
+        let s1 := if e = .requestDone then (match step s .reply with | some s' => s' | none => s) else s
+        match step s1 e with
+        | some s' => runTrace fuel s' ts (i + 1) (n + 1) (bad || badWait s')
+        | none => .rejected i name s
+
+/-! ### Line parser, oracle and `runLine` -/
+
+structure Fin where
+  st : Nat
+  go : Nat
+  wr : Nat
+  res : Nat
+  hang : Nat
+deriving Repr
+
+inductive Out where
+  | panic (cls : String)
+  | hang
+  | run (toks : List Tok) (calls : List (String × Nat)) (fin : Fin)
+
+structure Line where
+  kind : String
+  opens : Bool
+  sched : String
+  out : Out
+
+def skipToOut : P Unit := fun ts =>
+  match ts.dropWhile (· != "OUT") with
+  | _ :: r => .ok ((), r)
+  | [] => .error "no OUT section"
+
+open P in
+def parseOut : P Out := do
+  let t ← tok
+  match t with
+  | "PANIC" => do let c ← tok; pure (.panic c)
+  | "HANG" => pure .hang
+  | "TR" => do
+    let ts ← list tok
+    let toks ← ts.mapM fun x => match parseTok x with
+      | some k => pure k
+      | none => fail s!"bad trace token {x}"
+    kw "CALLS"
+    let calls ← list (do let r ← tok; let v ← nat; pure (r, v))
+    kw "FIN"
+    kw "st"; let st ← nat
+    kw "go"; let go ← nat
+    kw "wr"; let wr ← nat
+    kw "res"; let res ← nat
+    kw "hang"; let hang ← nat
+    pure (.run toks calls { st, go, wr, res, hang })
+  | _ => fail s!"bad OUT marker {t}"
+
+open P in
+def parseLine : P Line := do
+  kw "src"; let kind ← tok
+  kw "opens"; let opens ← bool
+  kw "sched"; let sched ← tok
+  skipToOut
+  let out ← parseOut
+  pure { kind, opens, sched, out }
+
+def sitesOf (role : String) (toks : List Tok) : List String :=
+  (toks.filter fun t => t.role == role).map (·.site)
+
+/-- what the log of one call says its return value is: 0 nil, 1 error, 2 not returned / unknown -/
+def expectedRet (role : String) (toks : List Tok) : Option Nat :=
+  let ss := sitesOf role toks
+  let r := roleLetter role
+  if r == "S" then
+    if ss.contains "start.runStarted" then some 0
+    else if ss.contains "state.startRejected" || ss.contains "state.inactive" || ss.contains "run.deactivate" then some 1
+    else some 2
+  else if r == "K" then
+    if ss.contains "stop.notActive" then some 1
+    else if ss.contains "stop.alreadyStopping" || ss.contains "stop.cleaned" then some 0
+    else some 2
+  else none
+
+def aliveL (s : St) : Nat := if s.lp = .off then 0 else 1
+def aliveP (s : St) : Nat := if s.pp = .off ∨ s.pp = .done then 0 else 1
+
+def countSite (toks : List Tok) (site : String) : Nat := (toks.filter fun t => t.site == site).length
+
+/-- The property oracle, evaluated on what the IMPLEMENTATION did (calls, final observations) with the
+model state reached along the implementation's own trace as the bookkeeping of "which calls are over". -/
+def chkC10 (ln : Line) (_toks : List Tok) (calls : List (String × Nat)) (fin : Fin) (s : St) (bad : Bool) : Option String :=
+  if fin.hang != 0 || calls.any (fun c => c.2 == 2) then
+    some "C10:hang a Start/Stop call did not return (watchdog)"
+  else if bad then
+    some "C10:stop-waits-on-next-run a Stop call parked before RunDoneWait waited on a run started after it (wait group reused)"
+  else if ln.kind != "udp" && calls.any (fun c => roleLetter c.1 == "S" && c.2 != 0) then
+    some "C10:restart-failed a Start call on an inactive source was refused or failed"
+  else if calls.any (fun c => roleLetter c.1 == "S" && c.2 == 1) && fin.res != 0 then
+    some "C10:failed-start-keeps-resources a failed Start left the sockets / reader goroutines of Sample open; the next Start fails to bind"
+  else if s.stopsDone > 0 && stoppers s = 0 && starters s = 0 then
+    if fin.st != 0 then some "C10:not-inactive-after-stops all Stop calls returned but the source is not Inactive"
+    else if fin.go != 0 && !s.res then some "C10:goroutines-left worker goroutines alive after all Stop calls returned"
+    else if fin.wr != 0 then some "C10:writing-left-active writing still active after all Stop calls returned"
+    else if fin.res != 0 then some "C10:resources-left resources held after all Stop calls returned"
+    else none
+  else none
+
+def runLine (ts : List String) : Verdict :=
+  match P.run parseLine ts with
+  | .error e => .bad e
+  | .ok ln =>
+    match ln.out with
+    | .panic cls =>
+      if (cls.splitOn "Called_Stop_on_a_Starting").length > 1 then
+        .viol "C10:stop-on-starting-panic Stop called while the source is Starting panics (server exits)"
+      else .viol s!"C10:panic-{cls} the life-cycle calls crashed the process"
+    | .hang => .viol "C10:hang the case did not finish (watchdog)"
+    | .run toks0 calls fin =>
+      let toks := normalize toks0.length false toks0
+      match runTrace toks.length (init ln.opens) toks 0 0 false with
+      | .rejected i tok s => .diff s!"trace-rejected at {i} {tok}: the model has no such step (st {stCode s.st} wg {s.wg} kWait {s.kWait})"
+      | .unknown i tok => .diff s!"trace-unknown-token at {i} {tok}"
+      | .obsMismatch i tok s => .diff s!"state-observed at {i} {tok} but model state is {stCode s.st}"
+      | .effOutside i tok => .viol s!"C10:cleanup-overlaps-run at {i} {tok}: processing state touched outside the core loop while a run is alive"
+      | .ok s n bad =>
+        -- outcomes: every call's return value against its own log, final observations against the model
+        match calls.find? (fun c => match expectedRet c.1 toks with | some v => v != c.2 | none => false) with
+        | some c => .diff s!"call-result {c.1} returned {c.2} but its trace says {(expectedRet c.1 toks).getD 9}"
+        | none =>
+          match chkC10 ln toks calls fin s bad with
+          | some v => .viol v
+          | none =>
+            if fin.st != stCode s.st then .diff s!"final-state impl {fin.st} model {stCode s.st}"
+            else if fin.wr != (if s.writing then 1 else 0) then .diff s!"final-writing impl {fin.wr} model {s.writing}"
+            else if fin.res != (if s.res then 1 else 0) then .diff s!"final-resources impl {fin.res} model {s.res}"
+            else if !s.res && fin.go != aliveL s + aliveP s then .diff s!"final-goroutines impl {fin.go} model {aliveL s + aliveP s}"
+            else
+              let nK := (calls.filter fun c => roleLetter c.1 == "K").length
+              let tags := [ln.kind, ln.sched] ++
+                (if nK ≥ 2 then ["multiStop"] else []) ++
+                (if countSite toks "loop.gotError" > 0 then ["selfEnd"] else []) ++
+                (if countSite toks "start.runStarted" ≥ 2 then ["restart"] else []) ++
+                (if countSite toks "stop.alreadyStopping" > 0 then ["stopWhileStopping"] else []) ++
+                (if countSite toks "stop.notActive" > 0 then ["stopWhenInactive"] else []) ++
+                (if countSite toks "note.writingOn" > 0 then ["writing"] else []) ++
+                (if ln.sched == "rnd" || ln.sched == "stopAt" || ln.sched == "reuse" then ["gated"] else []) ++
+                (if n > 60 then ["long"] else [])
+              .ok tags
 
 end DastardV.C10
